@@ -3273,3 +3273,77 @@ func diagnosticsStoreTheirTextAsGiven(c *core.Ctx) {
 	}
 	c.Stat("diagnostic_string_fields", n)
 }
+
+// ---------------------------------------------------------------------------
+// thePartialFlagIsForCallStagesOnly: a stage of a pipe that is a call is
+// compiled to a partial (the value in the pipe becomes its last argument).
+// The flag that tells the call compilers to do so is set only under a test
+// that the stage is a call: set for every stage, it reaches the calls inside a
+// stage of another form, and `5 | fs[pick()]` indexes the list with a partial.
+func thePartialFlagIsForCallStagesOnly(c *core.Ctx) {
+	p := c.P
+	cp := p.Pkg("compiler")
+	codeT := core.MustType(cp, "Code")
+	fi := fieldIdxByName(codeT, "pipeActive")
+	if fi < 0 {
+		core.Undecidedf("compiler.Code.pipeActive not found")
+	}
+	n := 0
+	for _, fn := range repoFns(p, "compiler") {
+		// the pipe compiler: emits Call 1 after Swap 1 ... identify by a parameter of type *ast.Pipe
+		isPipe := false
+		for _, prm := range fn.Params {
+			if pt, ok := prm.Type().(*types.Pointer); ok {
+				if nt := core.NamedOf(pt); nt != nil && nt.Obj().Name() == "Pipe" && nt.Obj().Pkg() != nil && core.RelPkg(nt.Obj().Pkg()) == "ast" {
+					isPipe = true
+				}
+			}
+		}
+		if !isPipe || fn.Parent() != nil {
+			continue
+		}
+		for _, s := range storesToField(fn, codeT, fi) {
+			k, ok := s.Val.(*ssa.Const)
+			if !ok || k.Value == nil || k.Value.String() != "true" {
+				continue
+			}
+			n++
+			// dominated by the success edge of a type test of a stage
+			guarded := false
+			for _, b := range fn.Blocks {
+				for _, in := range b.Instrs {
+					ta, ok := in.(*ssa.TypeAssert)
+					if !ok || !ta.CommaOk || ta.Referrers() == nil {
+						continue
+					}
+					pt, ok := ta.AssertedType.(*types.Pointer)
+					if !ok {
+						continue
+					}
+					nt := core.NamedOf(pt)
+					if nt == nil || !strings.Contains(nt.Obj().Name(), "Call") {
+						continue
+					}
+					for _, r := range *ta.Referrers() {
+						if ex, ok := r.(*ssa.Extract); ok && ex.Index == 1 && ex.Referrers() != nil {
+							for _, r2 := range *ex.Referrers() {
+								if iff, ok := r2.(*ssa.If); ok {
+									t := iff.Block().Succs[0]
+									if t == s.Block() || t.Dominates(s.Block()) {
+										guarded = true
+									}
+								}
+							}
+						}
+					}
+				}
+			}
+			c.Check(guarded, core.SSAName(fn)+"|partial-flag-under-a-call-test", p.Pos(s.Pos()),
+				core.SSAName(fn)+" sets the flag that turns calls into partials"+ife(guarded, " only for a stage that a type test has shown to be a call", " without testing that the stage is a call: inside a stage of another form (an index expression, a ternary) the calls become partials too, and the stage fails at run time"))
+		}
+	}
+	if n == 0 {
+		core.Undecidedf("the pipe compiler never sets Code.pipeActive")
+	}
+	c.Stat("partial_flag_sets", n)
+}
